@@ -13,6 +13,7 @@ CONSTANTS
   PreSize = 2
   ForeignNames <- ForeignQ
   MaxForeign = 1
+  GzipAppendOnRestart = FALSE
   OptSet <- RestartOpts
 CONSTRAINT RevBound
 INVARIANTS TypeOK DurSane FinOnlyAfterDurable NothingOwedIsMissing FinqIsDurable Custody SyncOnOpenFile
